@@ -24,7 +24,7 @@ def backend_models(R, cls='TempoBackend', with_field=False):
         ip.log.append(('backend-initialize',))
         o.fields['step'] = z3.IntVal(0)
         if with_field:
-            return z3.IntVal(0), StateAt(0), FieldAt(0)
+            return z3.IntVal(0), raw_states(z3.IntVal(0)), FieldAt(0)
         return z3.IntVal(0), StateAt(0)
 
     @model
@@ -37,7 +37,7 @@ def backend_models(R, cls='TempoBackend', with_field=False):
         o.fields['step'] = s
         ip.log.append(('backend-step', s))
         if with_field:
-            return s, StateAt(s), FieldAt(s)
+            return s, raw_states(s), FieldAt(s)
         return s, StateAt(s)
     R.models[cls + '.initialize'] = initialize
     R.models[cls + '.compute_step'] = compute_step
@@ -91,6 +91,92 @@ def tempo_scenario(fresh):
                       _times=Seq(s0 + 1, lambda j: label(start, dt, j), 'list'),
                       _states=Seq(s0 + 1, lambda j: stored_state(j, dim), 'list'))
             self_.fields['_dynamics'] = d
+            g['s0_pre'] = s0
+        ip.ghost['tempo'] = g
+        return {'args': [self_, T], 'kwargs': {}, 'self': self_, 'g': g,
+                'inputs': {'start_time': start, 'dt': dt, 'end_time': T, 's0': g.get('s0_pre', -1)}}
+    return scen
+
+
+# ------------------------------------------------------------------------------------
+# MeanFieldTempo.compute (client of the MeanFieldTempoBackend contract and of the
+# MeanFieldDynamics.add contract: sorted insertion; here times increase, so it appends)
+def mf_registry():
+    R = Registry()
+    dyn.make_progress_models(R)
+    backend_models(R, 'MFBackend', with_field=True)
+
+    @model
+    def mfd_ctor(ip, args, kw):
+        return Obj('MFDyn', {'times': Seq(0, lambda j: z3.RealVal(0), 'list'),
+                             'states': Seq(0, lambda j: NONE, 'list'), 'fields': Seq(0, lambda j: NONE, 'list')})
+
+    @model
+    def mfd_add(ip, args, kw):
+        o, t, states, field = args
+        times = o.fields['times']
+        n = times.length
+        last_ok = z3.Or(n == 0, times.fn(n - 1) <= to_real(t))
+        ip.prove('call/MeanFieldDynamics.add/appends-in-time-order', last_ok)
+        for key, val in (('times', to_real(t)), ('states', states), ('fields', field)):
+            s = o.fields[key]
+            old, m = s.fn, s.length
+            if concrete_int(m) == 0:
+                s.fn = (lambda val: lambda j: val)(val)
+            else:
+                s.fn = (lambda old, m, val: lambda j: ite(j == m, val, old(j)))(old, m, val)
+            s.length = z3.simplify(m + 1)
+        ip.log.append(('mfd-add', t))
+    R.models['dynamics.MeanFieldDynamics'] = mfd_ctor
+    R.models['MFDyn.add'] = mfd_add
+
+    def template(ip, frame, i):
+        g = ip.ghost['tempo']
+        s0 = to_int(ip.lookup_name('start_step', frame))
+        n = s0 + i
+        return {'@facts': [i >= 0], 'self._backend_instance.step': n,
+                'self._dynamics.times': Seq(n + 1, lambda j: label(g['start'], g['dt'], j), 'list'),
+                'self._dynamics.states': Seq(n + 1, lambda j: mf_states(g, j), 'list'),
+                'self._dynamics.fields': Seq(n + 1, lambda j: FieldAt(j), 'list')}
+    R.invariants[('tempo.MeanFieldTempo.compute', 0)] = LoopInv(template, 'mf-tempo-loop')
+    return R
+
+
+StateOf = z3.Function('StateOf', IntS, IntS, V)      # (step, system index)
+HsOf = z3.Function('HsDimOf', IntS, IntS)
+NSYS = z3.Int('nsys')
+
+
+def raw_states(j):
+    return Seq(NSYS, lambda i: StateOf(j, i), 'list')
+
+
+def mf_states(g, j):
+    """what MeanFieldTempo.compute hands to MeanFieldDynamics.add for step j: the raw state
+    list at initialisation (j == start), reshaped matrices afterwards"""
+    resh = Seq(NSYS, lambda i: uf('meth_reshape', StateOf(j, i), (HsOf(i), HsOf(i))), 'list')
+    return ite(j == 0, raw_states(j), resh)
+
+
+def mf_scenario(fresh):
+    def scen(ip, repo):
+        start, dt, T = Real('start'), Real('dt'), Real('end_time')
+        ip.assume(dt > 0)
+        params = mkobj(repo, 'tempo.TempoParameters', _dt=dt)
+        be = Obj('MFBackend', {'step': None})
+        ip.assume(NSYS >= 1)
+        hs = Seq(NSYS, lambda i: HsOf(i), 'list')
+        self_ = mkobj(repo, 'tempo.MeanFieldTempo', _start_time=start, _parameters=params,
+                      _parsed_parameters_dict={'hs_dim': hs}, _backend_instance=be, _dynamics=None, _name='mf')
+        g = {'start': start, 'dt': dt, 'T': T, 'hs': hs}
+        if not fresh:
+            s0 = Int('s0')
+            ip.assume(s0 >= 0)
+            be.fields['step'] = s0
+            self_.fields['_dynamics'] = Obj('MFDyn', {
+                'times': Seq(s0 + 1, lambda j: label(start, dt, j), 'list'),
+                'states': Seq(s0 + 1, lambda j: mf_states(g, j), 'list'),
+                'fields': Seq(s0 + 1, lambda j: FieldAt(j), 'list')})
             g['s0_pre'] = s0
         ip.ghost['tempo'] = g
         return {'args': [self_, T], 'kwargs': {}, 'self': self_, 'g': g,
